@@ -984,3 +984,34 @@ Example huge_exponent_rejected :
   validate_cond e r PAttr k_tickets OpGt [49; 101; 51; 48; 48; 48; 48; 48; 48; 48; 48]%N = Some EInvalidNumber
   /\ validate_cond e r PAttr k_tickets OpGt [49; 101; 49; 48; 48; 48]%N = None.
 Proof. split; vm_compute; reflexivity. Qed.
+
+(* the same in terms of the contact: for a field, `= ""` holds iff the contact has no entry for the key or the entry
+   has no value OF THE FIELD'S TYPE (a number field holding only text counts as absent); for name / language iff it
+   is empty; for a URN scheme iff the contact has no URN of that scheme *)
+Lemma empty_value_in_contact_terms : forall e r c key,
+  eval_contact e r (Cond PField key OpEq []) c =
+    RBool (match assoc key (c_fields c) with
+           | None => true
+           | Some (ft, fv) => match query_value ft fv with None => true | Some _ => false end
+           end)
+  /\ eval_contact e r (Cond PAttr k_name OpEq []) c = RBool (is_nil (c_name c))
+  /\ eval_contact e r (Cond PAttr k_language OpEq []) c = RBool (is_nil (c_lang c))
+  /\ eval_contact e r (Cond PUrn key OpEq []) c = RBool (negb (existsb (fun u => text_eqb (fst u) key) (c_urns c)))
+  /\ eval_contact e r (Cond PAttr k_last_seen_on OpNe []) c = RBool (match c_last_seen c with Some _ => true | None => false end).
+Proof.
+  intros e r c key. repeat split.
+  - unfold eval_contact. cbn [eval]. unfold eval_cond. cbn [is_nil is_eq andb query_property].
+    destruct (assoc key (c_fields c)) as [[ft fv]|]; [|reflexivity]. destruct (query_value ft fv); reflexivity.
+  - unfold eval_contact. cbn [eval]. unfold eval_cond. cbn [is_nil is_eq andb].
+    change (query_property c PAttr k_name) with (if is_nil (c_name c) then [] else [VText (c_name c)]).
+    destruct (c_name c); reflexivity.
+  - unfold eval_contact. cbn [eval]. unfold eval_cond. cbn [is_nil is_eq andb].
+    change (query_property c PAttr k_language) with (if is_nil (c_lang c) then [] else [VText (c_lang c)]).
+    destruct (c_lang c); reflexivity.
+  - unfold eval_contact. cbn [eval]. unfold eval_cond. cbn [is_nil is_eq andb query_property].
+    f_equal. induction (c_urns c) as [|u us IH]; [reflexivity|]. cbn [filter existsb].
+    destruct (text_eqb (fst u) key); [reflexivity|]. exact IH.
+  - unfold eval_contact. cbn [eval]. unfold eval_cond. cbn [is_nil is_eq is_ne andb].
+    change (query_property c PAttr k_last_seen_on) with (match c_last_seen c with Some t => [VTime t] | None => [] end).
+    destruct (c_last_seen c); reflexivity.
+Qed.
